@@ -2,7 +2,7 @@
 import os
 
 from . import core
-from .rules import stdio, cert, mark, exact, optstore, inval, idx, atomic, own, tokens, idxclass, copy, pair, structfree, buf, div, counter, sentinel, appendinit, verdict, basismap, zerotol, escape, lenclass, djsym, ndet, useb4check, norms, opencheck, shell, esolver, errlost, rescan, certdep, neverset, fmt, defaults, scratch, fullscan, slotleak, floatidx, sensemap, trunc, vtypezero, allockind, intdiv, strscan, localfield, rawidx, argcap, staleptr
+from .rules import stdio, cert, mark, exact, optstore, inval, idx, atomic, own, tokens, idxclass, copy, pair, structfree, buf, div, counter, sentinel, appendinit, verdict, basismap, zerotol, escape, lenclass, djsym, ndet, useb4check, norms, opencheck, shell, esolver, errlost, rescan, certdep, neverset, fmt, defaults, scratch, fullscan, slotleak, floatidx, sensemap, trunc, vtypezero, allockind, intdiv, strscan, localfield, rawidx, argcap, staleptr, condalloc, lpstate
 from .effects import Effects
 
 FIX = os.path.join(os.path.dirname(os.path.abspath(__file__)), "fixtures")
@@ -277,6 +277,7 @@ PROPS = {
     },
     "C07": {
         "rules": [lambda prog, tier: idx.run(prog), lambda prog, tier: atomic.run(prog), lambda prog, tier: shell.run(prog, shared_eff(prog)),
+                  lambda prog, tier: lpstate.run(prog),
                   lambda prog, tier: errlost.run(prog, scope_funcs=set(prog.reachable(sorted(f.key for f, _ in inval.api_functions(prog)))), floor=150)],
         "technique": "interprocedural taint of API index/selector arguments + path-sensitive must-analysis of range-guard facts "
                      "(right dimension, right strictness) on clang::CFG with callee preconditions propagated to the API boundary and "
@@ -532,6 +533,8 @@ PROPS = {
                   lambda prog, tier: lenclass.run_capacity(prog),
                   lambda prog, tier: argcap.run(prog, floor=40),
                   lambda prog, tier: staleptr.run(prog, shared_eff(prog)),
+                  lambda prog, tier: condalloc.run(prog),
+                  lambda prog, tier: lpstate.run(prog),
                   lambda prog, tier: neverset.run(prog),
                   lambda prog, tier: fmt.run(prog),
                   lambda prog, tier: floatidx.run(prog),
@@ -657,6 +660,11 @@ _ADD = {
                            "give the logical column the same coefficient sign for every sense letter (value enumeration through the switch / if forms); (R-KEEPCACHE) the test of the cached dual "
                            "value that lets ILLlib_delrows keep the cached solution rejects both signs; (R-SKIPGATE) a solve entry point answers from the "
                            "cache only under tests of p->basis, p->cache and p->factorok."},
+    "C07": {"technique": "; computed simplex-state fields of lpinfo + unguarded-read summaries + dominance of the API hand-over by the factorok test",
+            "explanation": " (R-LPSTATE) the index-taking calls that work on the simplex data of the problem (tableau rows, pivot-in lists, basis "
+                           "order) are refused in every lifecycle state in which p->lp does not hold the factored basis of the current problem "
+                           "(never solved, edited, basis replaced, solved by QSexact_solver on copies) instead of reading NULL / stale arrays. "
+                           "(R-IDX) also covers scratch arrays sized by a dimension and list[computed position] elements."},
     "C08": {"technique": "; all-paths constant propagation through the '/' case of the exact literal scanner; flag-state dataflow for stores into the "
                          "raw LP's bounds; machine-word sink census; exit-condition analysis of the emission loops",
             "explanation": " (R-RESCAN) the '/' case of the exact literal scanner restores every scanner state variable; (R-EXPLICITBND) the raw LP's "
@@ -709,7 +717,9 @@ _ADD = {
                          "field census; printf-format census; floating-point-derived subscript taint; four-array norm typestate at a basis load; "
                          "index-space typing of subscripts in the raw-to-LP conversion (R-RAWIDX); subscript-space requirement of parameters "
                          "against the reaching allocation classes of local vectors (R-ARGCAP); staleness typestate of local copies of "
-                         "re-allocatable pointer fields (R-STALEPTR)"},
+                         "re-allocatable pointer fields (R-STALEPTR); inferred mode-dependent allocation: accesses dominated by the "
+                         "selector test (R-CONDALLOC); computed simplex-state fields + unguarded-read summaries: API hand-overs of p->lp "
+                         "dominated by the factorok test (R-LPSTATE)"},
     "C18": {"technique": "; append-slot typestate with error-code / flag correlation; deep-release check of owning records"},
     "C19": {"technique": "; status-value enumeration through switch / if / conditional-expression forms; printf-format census; resource typestate on "
                          "esolver's main; exit-condition analysis of the print loops",
